@@ -11,6 +11,7 @@ import (
 	"os"
 	"path/filepath"
 	"sort"
+	"strings"
 )
 
 // generators are registered by the other files of this package (one per generated Lean module).
@@ -19,14 +20,29 @@ var generators = map[string]func(repo string) (string, error){}
 func main() {
 	out := flag.String("out", "/verif/lean/TRV/Generated", "output directory")
 	repo := flag.String("repo", "/repo", "repository root")
+	only := flag.String("only", "", "comma-separated generator names (default: all)")
 	flag.Parse()
+	want := map[string]bool{}
+	for _, n := range strings.Split(*only, ",") {
+		if n != "" {
+			want[n] = true
+		}
+	}
 	if err := os.MkdirAll(*out, 0o755); err != nil {
 		fmt.Println(err)
 		os.Exit(1)
 	}
 	names := make([]string, 0, len(generators))
 	for n := range generators {
-		names = append(names, n)
+		if len(want) == 0 || want[n] {
+			names = append(names, n)
+		}
+	}
+	for n := range want {
+		if _, ok := generators[n]; !ok {
+			fmt.Printf("extract: unknown generator %s\n", n)
+			os.Exit(1)
+		}
 	}
 	sort.Strings(names)
 	failed := false
